@@ -633,7 +633,10 @@ func (in *Interp) exec2(s Stmt, top bool) ctl {
 			panic(Invalid{"definition count mismatch"})
 		}
 		for i, n := range x.Names {
-			// every name of a generated definition is new (":=" re-using a name is never generated)
+			if i < len(x.Reuse) && x.Reuse[i] {
+				in.setVar(n, vals[i]) // ":=" next to a new name re-uses a variable of the same block
+				continue
+			}
 			in.defineVar(n, vals[i], top)
 		}
 	case Assign:
